@@ -40,7 +40,7 @@ type Outcome struct {
 var Names = map[string]bool{}
 
 // Opaque lists functions the reference does not model (environment dependent).
-var Opaque = map[string]bool{"time": true, "zone": true, "inspect": true, "time?": true}
+var Opaque = map[string]bool{"time": true, "zone": true, "inspect": true}
 
 func undef(format string, a ...any) { panic(Undefined{fmt.Sprintf(format, a...)}) }
 func fail(format string, a ...any)  { panic(Error{fmt.Sprintf(format, a...)}) }
@@ -123,7 +123,27 @@ func (e *env) eval(arg any, at any) any {
 	case jp.Expr:
 		return e.first(t, at)
 	}
-	return arg
+	return literal(arg)
+}
+
+// literal: an array or map written in the plan denotes a fresh value each
+// time it is evaluated.
+func literal(v any) any {
+	switch t := v.(type) {
+	case []any:
+		out := make([]any, len(t))
+		for i, m := range t {
+			out[i] = literal(m)
+		}
+		return out
+	case map[string]any:
+		out := make(map[string]any, len(t))
+		for k, m := range t {
+			out[k] = literal(m)
+		}
+		return out
+	}
+	return v
 }
 
 func (e *env) first(x jp.Expr, at any) any {
@@ -294,7 +314,7 @@ func (e *env) call(c *call, at any) any {
 		if len(c.args) == 0 {
 			return nil
 		}
-		return c.args[0]
+		return literal(c.args[0])
 	case "list":
 		out := []any{}
 		for _, a := range c.args {
@@ -358,7 +378,7 @@ func (e *env) call(c *call, at any) any {
 			fail("not of a non-boolean")
 		}
 		return !b
-	case "array?", "bool?", "map?", "null?", "nil?", "num?", "string?":
+	case "array?", "bool?", "map?", "null?", "nil?", "num?", "string?", "time?":
 		e.arity(c, 1, 1)
 		k := kindOf(e.eval(c.args[0], at))
 		switch c.name {
@@ -372,6 +392,8 @@ func (e *env) call(c *call, at any) any {
 			return k == "nil"
 		case "num?":
 			return k == "int" || k == "float"
+		case "time?":
+			return false // no value of the reference's domain is a time (time and zone are opaque)
 		}
 		return k == "string"
 	case "cond":
@@ -799,32 +821,39 @@ func (e *env) arith(c *call, at any) any {
 }
 
 func (e *env) compare(c *call, at any) any {
-	vals := make([]any, len(c.args))
-	strs, nums := 0, 0
-	for i, a := range c.args {
-		vals[i] = e.eval(a, at)
-		switch vals[i].(type) {
+	// Arguments are evaluated from the left and evaluation stops at the first
+	// pair that fails (like and/or; the descriptions do not promise that the
+	// remaining arguments are evaluated).
+	if len(c.args) < 2 {
+		undef("%s with %d arguments", c.name, len(c.args))
+	}
+	kind := ""
+	classify := func(v any) string {
+		switch v.(type) {
 		case int64, float64:
-			nums++
+			return "num"
 		case string:
-			strs++
+			return "str"
 		}
-		// The implementation may stop evaluating at the first failing pair;
-		// evaluation of arguments has no documented side-effect order, so
-		// plans whose comparison arguments have side effects are not
-		// generated.
+		return "other"
 	}
-	if len(vals) < 2 || (strs != len(vals) && nums != len(vals)) {
-		undef("%s over %d strings, %d numbers of %d arguments", c.name, strs, nums, len(vals))
+	prev := e.eval(c.args[0], at)
+	kind = classify(prev)
+	if kind == "other" {
+		undef("%s of %s", c.name, kindOf(prev))
 	}
-	for i := 1; i < len(vals); i++ {
+	for _, a := range c.args[1:] {
+		v := e.eval(a, at)
+		if classify(v) != kind {
+			undef("%s over mixed kinds", c.name)
+		}
 		var lt, eq bool
-		if strs > 0 {
-			a, b := vals[i-1].(string), vals[i].(string)
-			lt, eq = a < b, a == b
+		if kind == "str" {
+			x, y := prev.(string), v.(string)
+			lt, eq = x < y, x == y
 		} else {
-			a, b := f64(vals[i-1]), f64(vals[i])
-			lt, eq = a < b, a == b
+			x, y := f64(prev), f64(v)
+			lt, eq = x < y, x == y
 		}
 		var ok bool
 		switch c.name {
@@ -840,6 +869,7 @@ func (e *env) compare(c *call, at any) any {
 		if !ok {
 			return false
 		}
+		prev = v
 	}
 	return true
 }
